@@ -516,6 +516,10 @@ func (x *Exec) callWith(f *frame, in ssa.Instruction, c *ssa.CallCommon, args []
 				// call through a package-level function variable: the site is named after the variable
 				x.siteAssertions(st, in, g.Name(), args)
 			}
+			if fv, ok := ld.X.(*ssa.FreeVar); ok {
+				// call through a captured function-valued variable of the enclosing function
+				x.siteAssertions(st, in, fv.Name(), args)
+			}
 			if al, ok := ld.X.(*ssa.Alloc); ok && al.Comment != "" {
 				// call through a function-valued parameter or local: the site is named after it
 				x.siteAssertions(st, in, al.Comment, args)
